@@ -10,7 +10,8 @@ Correspondence (implementation vs extracted Coq model, same bytes):
     worksheet_cells_reader/next_cell + worksheet_range_ref + worksheet_range, the model reading
     the very same sharedStrings.bin and sheet parts: legal layouts of random logical sheets under
     every encoding variation (record kind per value incl. RK forms vs BrtCellReal, framing
-    forms, ignorable records incl. ids sharing their low byte with cell records, BrtWsDim
+    forms, ignorable records incl. ids sharing their low byte with cell records and bodies of
+    8 KiB .. 64 KiB, strings starting with U+FEFF / U+FFFE / U+BBEF, BrtWsDim
     absent / exact / wrong, header blocks, empty rows), header-row option, and malformed parts
     (truncation at every record kind and length, bad codes / indices / rows / dimensions, columns
     beyond the grid,
@@ -111,9 +112,16 @@ def run_recs(ctx):
     ctx.sample({"recs": lines[0][:200], "answer": impl.get("r0")})
 
 # ------------------------------------------------------------------ generators
+# first characters a decoder that sniffs byte-order marks would eat or reinterpret: U+FEFF (bytes
+# FF FE), U+FFFE (FE FF), U+BBEF U+xxBF (bytes EF BB BF = the UTF-8 mark)
+BOM_HEADS = ["\ufeff", "\ufffe", "\ubbef\u00bf", "\ubbef\u41bf", "\ubbef", "\ufeff\ufeff"]
 def rand_text(rng, maxlen=8):
-    pool = [0x41, 0x61, 0x7A, 0x20, 0xE9, 0x3A9, 0x4E2D, 0xFEFF, 0xFFFD, 0xFFFE, 0x1F600, 0x10FFFF, 0x10000, 0xD7FF, 0xE000]
-    return "".join(chr(rng.choice(pool)) for _ in range(rng.randrange(0, maxlen)))
+    pool = [0x41, 0x61, 0x7A, 0x20, 0xE9, 0x3A9, 0x4E2D, 0xFEFF, 0xFFFD, 0xFFFE, 0x1F600, 0x10FFFF, 0x10000, 0xD7FF, 0xE000,
+            0xBBEF, 0xBF]
+    t = "".join(chr(rng.choice(pool)) for _ in range(rng.randrange(0, maxlen)))
+    if rng.random() < 0.15:
+        t = rng.choice(BOM_HEADS) + t
+    return t
 
 def gen_env(rng):
     nf = rng.choice([1, 3, 4, 6])
@@ -175,7 +183,13 @@ def rand_val(rng, env):
 FMLA_TAIL = struct.pack("<HI", 0, 3) + b"\x1e\x01\x00" + struct.pack("<I", 0)
 IGNORABLE = [1, 0x0C, 0x0D, 0x25, 0x26, 0x3C, 0x7F, 0x80, 0x82, 0x100, 0x102, 0x103, 0x185, 0x192, 0x292,
              0x0400, 0x0491, 0x1000, 0x3FFF, 0x91, 0x94, 0x81]
-def rand_body(rng):
+def rand_body(rng, big=0.0):
+    """body of an ignorable record; with probability [big] larger than the 8 KiB the BufReader over
+    the zip entry holds (up to 64 KiB: BrtArrFmla / FRT blobs)"""
+    if rng.random() < big:
+        n = rng.choice([8191, 8192, 8193, 9000, 16384, 20000, 40000, 65535])
+        seed = bytes(rng.getrandbits(8) for _ in range(61))
+        return (seed * (n // 61 + 1))[:n]
     return bytes(rng.getrandbits(8) for _ in range(rng.choice([0, 0, 1, 4, 8, 12, 16, 127, 128, 200])))
 
 def gen_layout(rng, env, dim_mode=None):
@@ -186,7 +200,7 @@ def gen_layout(rng, env, dim_mode=None):
     def other():
         rid = rng.choice(IGNORABLE) if rng.random() < 0.8 else rng.choice(
             [x for x in [rng.randrange(16384)] if x not in G.INTERPRETED] or [1])
-        body = rand_body(rng)
+        body = rand_body(rng, big=0.06)
         return {"fr": rand_fr(rng, rid, body), "k": "other", "id": rid, "body": body}
     for r in rows:
         if rng.random() < 0.15:
